@@ -140,9 +140,8 @@ aws_stream_mem(struct aws_stream * S, const void * p, size_t n)
 	size_t k;
 
 	AWS_ST_BOUND(n <= AWS_ARGMAX, "fixed-length string longer than AWS_ARGMAX");
-	for (k = 0; k < AWS_ARGMAX; k++)
-		if (k < n)
-			aws_stream_c(S, ((const uint8_t *)p)[k]);
+	for (k = 0; k < AWS_ARGMAX && k < n; k++)
+		aws_stream_c(S, ((const uint8_t *)p)[k]);
 }
 
 /*
@@ -187,9 +186,8 @@ aws_stream_cat(struct aws_stream * S, const struct aws_stream * A)
 		else if (A->t[i].kind == AWS_TK_INT)
 			aws_stream_int(S, A->t[i].ival);
 		else
-			for (k = 0; k < AWS_TXMAX; k++)
-				if (k < A->t[i].len)
-					aws_stream_c(S, A->t[i].text[k]);
+			for (k = 0; k < AWS_TXMAX && k < A->t[i].len; k++)
+				aws_stream_c(S, A->t[i].text[k]);
 	}
 }
 
@@ -254,8 +252,9 @@ aws_stream_eq(const struct aws_stream * A, const struct aws_stream * B)
 		} else {
 			if (A->t[i].len != B->t[i].len)
 				return (0);
-			for (k = 0; k < AWS_TXMAX; k++)
-				if (k < A->t[i].len && A->t[i].text[k] != B->t[i].text[k])
+			/* the lengths are constants for the symbolic execution: the loop ends there */
+			for (k = 0; k < AWS_TXMAX && k < A->t[i].len; k++)
+				if (A->t[i].text[k] != B->t[i].text[k])
 					eq = 0;
 		}
 	}
